@@ -184,6 +184,48 @@ func c10Check(c *mon.Ctx, s string, origin string, budget uint64) {
 			}
 		}
 	}
+	// an EXPLICIT budget of 0 means "no budget" for every entry point: with it
+	// (alone, or as the last of several) Parse must accept exactly what
+	// CreateEvaluator accepts - only where the unlimited parse is known to be cheap
+	if !budgeted && len(s) < 4000 && mon.Hash64(s)%8 == 0 {
+		for vi, o := range [][]grammar.Option{{grammar.MaxExpressions(0)}, {grammar.MaxExpressions(3), grammar.MaxExpressions(0)}, {grammar.Recover(false), grammar.Recover(true), grammar.MaxExpressions(0)}} {
+			_, zerr, zpan, zsite := parsePublic(s, o...)
+			if zpan != "" {
+				dd := d()
+				dd["panic"] = zpan
+				c.Violation("C10 panic api=grammar.Parse site="+zsite, "grammar.Parse panicked (explicit zero budget)", dd)
+				break
+			}
+			if (zerr == nil) != (cerr == nil) {
+				dd := d()
+				dd["parse_err_with_explicit_zero_budget"], dd["create_err"], dd["option_list"] = fmt.Sprint(zerr), fmt.Sprint(cerr), vi
+				c.Violation("C10 Parse(explicit zero budget)/CreateEvaluator acceptance differs", "grammar.Parse with MaxExpressions(0) and CreateEvaluator disagree on acceptance", dd)
+				break
+			}
+		}
+		ev0, cerr0, pan0, site0 := createEval(s, bexpr.WithMaxExpressions(0))
+		if pan0 != "" {
+			dd := d()
+			dd["panic"] = pan0
+			c.Violation("C10 panic api=CreateEvaluator site="+site0, "CreateEvaluator panicked (explicit zero budget)", dd)
+		} else if (cerr0 == nil) != (cerr == nil) || (ev0 == nil) != (ev == nil) {
+			c.Violation("C10 CreateEvaluator(explicit zero budget) acceptance differs", "CreateEvaluator with WithMaxExpressions(0) differs from CreateEvaluator without options", d())
+		}
+		c.Count("explicit_zero_budget_checked")
+		// ... and right after option-bearing calls a budget that runs out must still be an error, not a panic
+		_, berr, bpan, bsite := parsePublic("((((((((a == 1))))))))", grammar.MaxExpressions(40))
+		if bpan != "" || berr == nil {
+			dd := d()
+			dd["panic"], dd["error"] = bpan, fmt.Sprint(berr)
+			c.Violation("C10 panic api=grammar.Parse site="+bsite+" after-option-bearing-calls", "a parse whose budget runs out did not return an error after earlier option-bearing calls", dd)
+		}
+		ev2, cerr2, cpan2, csite2 := createEval("((((((((a == 1))))))))", bexpr.WithMaxExpressions(40))
+		if cpan2 != "" || cerr2 == nil || ev2 != nil {
+			dd := d()
+			dd["panic"], dd["error"] = cpan2, fmt.Sprint(cerr2)
+			c.Violation("C10 panic api=CreateEvaluator site="+csite2+" after-option-bearing-calls", "CreateEvaluator under a budget that runs out did not return (nil, error) after earlier option-bearing calls", dd)
+		}
+	}
 	if ev != nil {
 		if ev.Expression() != s {
 			c.Violation("C10 Expression() differs", "Expression() is not the creation string", d())
@@ -393,7 +435,7 @@ func init() {
 			// tree under test and are reported, not required: rewording an
 			// error must not make the check inconclusive)
 			return []string{"class:accepted", "rejected", "class:budget-exhausted", "filter_empty_string", "evaluators_exercised", "trees_dumped",
-				"probe:chain-2000-survived", "probe:not-chain-survived", "probe:after-chain", "expensive_valid_inputs"}
+				"probe:chain-2000-survived", "probe:not-chain-survived", "probe:after-chain", "expensive_valid_inputs", "explicit_zero_budget_checked"}
 		},
 		ChunkTimeout: 0,
 		Heavy: func(tier string, idx int) bool {
